@@ -35,6 +35,7 @@ structure R where
   chunkChecked : Bool := false
   headEncoded : Bool := false
   hasBody : Bool := false
+  closeDelim : Bool := false    -- closeDelimited: no length is announced, the body ends with the connection
   wire : List Bytes := []       -- successful conn writes, in order
   attempts : Nat := 0           -- conn write calls so far
 
@@ -151,11 +152,11 @@ def headBytes (g : Cfg) (r : R) : Bytes :=
   let d := statusLine g r
   let d := if r.hasBody && hget r.header kCT == [] then
               d ++ str "Content-Type: text/plain; charset=utf-8\r\n" else d
-  let d := if !r.chunked && hget r.header kCL == [] then
+  let d := if !r.chunked && !r.closeDelim && hget r.header kCL == [] then
               let l := match r.bodyBuffer with | some b => b.length | none => 0
               d ++ str "Content-Length: " ++ (if r.hasBody && l > 0 then fmtDec l else str "0") ++ CRLF
            else d
-  let d := if g.reqClose && hget r.header kConn == [] then d ++ str "Connection: close\r\n" else d
+  let d := if (g.reqClose || r.closeDelim) && hget r.header kConn == [] then d ++ str "Connection: close\r\n" else d
   let d := if hget r.header kDate == [] then d ++ headerLine kDate datePlaceholder else d
   d ++ headerLines (hget r.header kTrailer) r.header ++ CRLF
 
@@ -288,21 +289,41 @@ def copyLoop (g : Cfg) : Nat → R → Bytes → Nat → R × Nat × Bool
     let (r, ok) := send g r c
     if ok then copyLoop g f r (d.drop 32768) (w + c.length) else (r, w, false)
 
+/-- ReadFrom, first paragraph: the head buffer, if it is still there (it may have been sent, moved into the
+body buffer by a Write, or freed by a Flush that failed): conn.Write(*res.buffer); Free; nil -/
+def sendHeadFirst (g : Cfg) (r : R) : R × Bool :=
+  match r.buffer with
+  | some b =>
+    let (r, ok) := send g r b
+    ({ r with buffer := none }, ok)
+  | none => (r, true)
+
+/-- ReadFrom, second paragraph: what has been written so far goes out before the reader's bytes -/
+def sendBodyFirst (g : Cfg) (r : R) : R × Bool :=
+  match r.bodyBuffer with
+  | some bb =>
+    if bb.length > 0 then
+      let (r, ok) := send g r bb
+      ({ r with bodyBuffer := some [] }, ok)
+    else (r, true)
+  | none => (r, true)
+
+/-- ReadFrom, the copy: Sendfile or io.Copy -/
+def readCopy (g : Cfg) (r : R) (k : RKind) (data : Bytes) : R × WRes :=
+  if k == .limited && data.length == 0 then (r, .ok 0) else
+  if g.sendfile && k != .plain then sendDirect g r data
+  else
+    let (r, w, ok) := copyLoop g (data.length + 1) r data 0
+    if ok then (r, .ok w) else (r, .errCopy w)
+
 /-- Response.ReadFrom; `data` = the n bytes the reader yields -/
 def readFrom (g : Cfg) (r : R) (k : RKind) (data : Bytes) : R × WRes :=
   let r := writeHeader200 r
   let r := eoncodeHead g { r with hasBody := true }
-  match r.buffer with
-  | none => (r, .panic)
-  | some b =>
-    let (r, ok) := send g r b
-    let r := { r with buffer := none }
-    if !ok then (r, .errConn) else
-    if k == .limited && data.length == 0 then (r, .ok 0) else
-    if g.sendfile && k != .plain then sendDirect g r data
-    else
-      let (r, w, ok) := copyLoop g (data.length + 1) r data 0
-      if ok then (r, .ok w) else (r, .errCopy w)
+  let p := sendHeadFirst g r
+  if !p.2 then (p.1, .errConn) else
+  let q := sendBodyFirst g p.1
+  if !q.2 then (q.1, .errConn) else readCopy g q.1 k data
 
 /-! ### Flush (http.Flusher) -/
 
@@ -326,8 +347,15 @@ def flushBodyBuf (g : Cfg) (r : R) : R :=
     else r
   | none => r
 
+/-- Flush, before the head is encoded: if the head goes out now and nothing tells the length of the body (not
+chunked, no Content-Length from the handler, a status that allows a body) the body is delimited by closing the
+connection: `closeDelimited = true; request.Close = true` -/
+def markDelim (r : R) : R :=
+  if !r.headEncoded && !r.chunked && hget r.header kCL == [] && r.statusCode != 204 && r.statusCode != 304
+  then { r with closeDelim := true } else r
+
 def flushOp (g : Cfg) (r : R) : R :=
-  flushBodyBuf g (flushBuf g (eoncodeHead g (checkChunked g (writeHeader200 r))))
+  flushBodyBuf g (flushBuf g (eoncodeHead g (markDelim (checkChunked g (writeHeader200 r)))))
 
 /-! ### flushResponse -/
 
@@ -392,7 +420,7 @@ def flushChunked (g : Cfg) (r : R) : R × Bool :=
 def finish (g : Cfg) (r : R) : R × Bool :=
   let r := eoncodeHead g (checkChunked g (writeHeader200 r))
   let (r, ok) := if r.chunked then flushChunked g r else flushIdentity g r
-  (r, !ok || g.reqClose)
+  (r, !ok || g.reqClose || r.closeDelim)
 
 /-! ### handler programs -/
 
